@@ -75,8 +75,6 @@ ERepsAll == {
 }
 ERepsQuick == {
   N("bin:+", <<EL(<<"x">>), EL(<<"1">>)>>),
-  N("bin:*", <<EL(<<"y">>), EL(<<"1.5">>)>>),
-  N("bin:==", <<EL(<<"x">>), EL(<<"1">>)>>),
   N("arr2", <<EL(<<"1">>), EL(<<"1.5">>)>>),
   N("tup2", <<EL(<<"1">>), EL(<<"\"s\"">>)>>),
   EL(FnLit),
@@ -87,7 +85,7 @@ ERepsQuick == {
 }
 SRepsAll == {
   N("block1", <<EL(<<"x">>)>>),
-  N("ifelse", <<EL(<<"b">>), EL(<<"1">>), EL(<<"1.5">>)>>),
+  N("ifelse", <<EL(<<"b">>), EL(<<"1">>), EL(<<"x">>)>>),
   N("match_td", <<EL(<<"u">>), Leaf("T", <<"int">>), EL(<<"1">>)>>),
   N("loop_blk", <<EL(<<"x">>)>>),
   N("for", <<EL(<<"it">>), EL(<<"x">>)>>),
@@ -98,9 +96,8 @@ SRepsAll == {
   ImportLeaf("valid")
 }
 SRepsQuick == {
-  N("ifelse", <<EL(<<"b">>), EL(<<"1">>), EL(<<"1.5">>)>>),
+  N("ifelse", <<EL(<<"b">>), EL(<<"1">>), EL(<<"x">>)>>),
   N("return1", <<EL(<<"x">>)>>),
-  N("set", <<EL(<<"1">>)>>),
   Leaf("S", <<"break">>)
 }
 EReps == IF Thorough THEN ERepsAll ELSE ERepsQuick
@@ -114,7 +111,7 @@ EForms == ExprForms \cup StmtForms
 Pool1(f, sort) ==
   LET small == ~Thorough /\ Arity(f) = 3 IN
   CASE sort = "E" -> IF small THEN QLeaves ELSE ELeaves
-    [] sort = "S" -> (IF small THEN QLeaves ELSE ELeaves) \cup SLeaves
+    [] sort = "S" -> IF small THEN QLeaves \cup QSLeaves ELSE ELeaves \cup SLeaves
     [] sort = "T" -> IF small THEN QTReps ELSE TReps
 \* restricted depth 3: children are the representatives
 Pool2(f, sort) ==
